@@ -26,7 +26,7 @@ func init() {
 		Workers:     4,
 		Race:        true,
 		CaseTimeout: 240e9,
-		Rule: "real parallel executions under the Go race detector: 2-16 clients call ProcessPushPull at the same instant on a shared key and on their own keys (each call with its own context, cancelled on return), mixed with ProcessClient and PatchDocument calls, in several waves, with random yields / sleeps injected at the push-pull hook points and at database commands; monitors: (1) critical-section overlap from the cs-enter / cs-exit hook events per (collection, key); (2) linearizability of the recorded call/return history of every key against the sequential push-pull specification (porcupine, partitioned by key; operations carry unique ids; an error reply is a no-op); (3) store invariants of C06 at the end; (4) independence: one key's handler is held inside its critical section by a gate on its database write while requests on other keys must return; (5) every request returns (watchdog classification); (6) race-detector reports attributed to orda code (none of the accesses in harness code), deduplicated by the pair of innermost orda functions; " +
+		Rule: "real parallel executions under the Go race detector: 2-16 clients call ProcessPushPull at the same instant on a shared key and on their own keys (each call with its own context, cancelled on return), mixed with ProcessClient and PatchDocument calls, in several waves, with random yields / sleeps injected at the push-pull hook points and at database commands; monitors: (1) critical-section overlap from the cs-enter / cs-exit hook events per (collection, key); (2) linearizability of the recorded call/return history of every key against the sequential push-pull specification (porcupine, partitioned by key; operations carry unique ids; an error reply is a no-op); (3) store invariants of C06 at the end; (4) independence: one key's handler is held inside its critical section by a gate on its database write while requests on other keys must return; (5) every request returns (watchdog classification), including pull-only requests of a client that gives up (context cancelled before the call, 0.1-2 ms into it, or exactly when its handler is about to take the key's lock - hook pp.before-lock), and afterwards sequential fault-free syncs of all clients reach quiescence (a leaked lock or a blocked key shows here); (6) race-detector reports attributed to orda code (none of the accesses in harness code), deduplicated by the pair of innermost orda functions; " +
 			"non-trivial = >= 3 clients pushed operations to the shared key in the same wave; distinct = hash of the observed per-key critical-section entry order (the interleaving actually seen)",
 		Assumptions: []string{
 			"only the in-process local lock is exercised (no Redis in the sandbox); a single server process",
@@ -399,6 +399,91 @@ func runC12(c *core.Case) *core.Result {
 	if _, sig, msg := w.sync(docCl); sig != "" {
 		return verdict(c, "setup:", sig, msg)
 	}
+	// a client that gives up: its pull-only requests on the shared key run with a context that
+	// is cancelled before the call or while the handler queues for / holds the key's lock (a
+	// client-side timeout or disconnect); the responses are never applied. A pull-only request
+	// of a subscribed client has no effect on the log, so these calls are not part of the
+	// linearizability history; what matters is what they leave behind (a held lock).
+	ghostCl := w.b.NewClient("colA", "ghost")
+	ghostD := ghostCl.Open(sharedKey, typ, bed.Subscribe)
+	ghostCl.Register()
+	ghostOK := false
+	if ghostD != nil {
+		for try := 0; try < 3 && !ghostOK; try++ {
+			if ex, _ := ghostCl.Sync(); ex != nil && !ex.Out.TimedOut && ghostD.DT.GetState() == model.StateOfDatatype_SUBSCRIBED {
+				ghostOK = true
+			}
+		}
+	}
+	var abandoned, cancelledAtLock int64
+	var atLock atomic.Value // func(): cancels the ghost's current request when its handler is about to take the lock
+	atLock.Store(func() {})
+	w.b.OnHook(func(point string, args ...interface{}) {
+		if point == "pp.before-lock" && len(args) >= 4 && ghostCl.Model != nil && args[3] == ghostCl.Model.CUID {
+			atLock.Load().(func())()
+		}
+	})
+	ghostSend := func(delay time.Duration) {
+		req := ghostCl.BuildRequest(ghostD)
+		ctx, cancel := context.WithCancel(context.Background())
+		switch {
+		case delay < 0: // exactly between the request's lookups and its TryLock
+			atLock.Store(func() { cancel(); atomic.AddInt64(&cancelledAtLock, 1) })
+			defer atLock.Store(func() {})
+		case delay == 0:
+			cancel()
+		default:
+			time.AfterFunc(delay, cancel)
+		}
+		done := make(chan string, 1)
+		svc := w.b.Svc
+		go func() {
+			pm := safely(func() { svc.ProcessPushPull(ctx, proto.Clone(req).(*model.PushPullMessage)) })
+			done <- pm
+		}()
+		select {
+		case pm := <-done:
+			if pm != "" {
+				violation.Store([2]string{"server-panic", "ProcessPushPull with a cancelled context panicked: " + pm})
+			}
+		case <-time.After(20 * time.Second):
+			d := bed.Stacks()
+			if !bed.HandlerAlive(d) {
+				violation.Store([2]string{"request-hang", "a request whose context was cancelled never returned\n" + clipDump(d)})
+			} else {
+				violation.Store([2]string{"INCONCLUSIVE", "request watchdog (cancelled-context request)"})
+			}
+		}
+		cancel()
+		atomic.AddInt64(&abandoned, 1)
+	}
+	// probe: the shared key is usable: one client, one request at a time, no fault, no
+	// concurrency. Three refusals in a row mean the key stayed blocked (decided right after an
+	// abandoned request and before the slower monitors, so that a leaked lock does not cost a
+	// lease time per remaining request).
+	probe := func() *core.Result {
+		for _, x := range clients {
+			if x.shared.DT.GetState() != model.StateOfDatatype_SUBSCRIBED {
+				continue
+			}
+			refused := 0
+			for try := 0; try < 3; try++ {
+				before := w.errPacks + w.rpcErrs
+				if _, sig, msg := w.sync(x.cl, x.shared); sig != "" {
+					return verdict(c, "", sig, msg)
+				}
+				if w.errPacks+w.rpcErrs == before {
+					break
+				}
+				refused++
+			}
+			if refused == 3 {
+				return c.Violation("key-blocked-after-abandoned-request", "a single client synced the shared key three times, one request at a time and without any fault, and was refused every time: the key's lock was never released (%d requests were abandoned by their client so far, %d of them cancelled when their handler was about to take the lock)", atomic.LoadInt64(&abandoned), atomic.LoadInt64(&cancelledAtLock))
+			}
+			break
+		}
+		return nil
+	}
 	waves := 3 + r.Intn(3)
 	nt := false
 	for wv := 0; wv < waves; wv++ {
@@ -421,6 +506,16 @@ func runC12(c *core.Case) *core.Result {
 		c.Step("wave %d: %d clients sync simultaneously (%d push to the shared key)", wv, len(clients), pushers)
 		var side sync.WaitGroup
 		side.Add(3)
+		if ghostOK {
+			delays := []time.Duration{-1, -1, 0, 100 * time.Microsecond, 500 * time.Microsecond, 2 * time.Millisecond}
+			d1, d2 := delays[r.Intn(len(delays))], delays[r.Intn(len(delays))]
+			side.Add(1)
+			go func() {
+				defer side.Done()
+				ghostSend(d1)
+				ghostSend(d2)
+			}()
+		}
 		go func() { // re-registration traffic
 			defer side.Done()
 			for _, x := range clients[:minInt(3, len(clients))] {
@@ -460,6 +555,13 @@ func runC12(c *core.Case) *core.Result {
 		side.Wait()
 		if v, ok := violation.Load().([2]string); ok {
 			return verdict(c, "", v[0], v[1])
+		}
+		if ghostOK && wv%2 == 0 {
+			// the same while the key is quiet: the abandoned request finds the lock free
+			ghostSend(-1)
+			if res := probe(); res != nil {
+				return res
+			}
 		}
 	}
 	// ---- independence: hold the shared key's handler inside its critical section
@@ -516,6 +618,9 @@ func runC12(c *core.Case) *core.Result {
 	if v, ok := violation.Load().([2]string); ok {
 		return verdict(c, "", v[0], v[1])
 	}
+	if res := probe(); res != nil {
+		return res
+	}
 	mon.mu.Lock()
 	overlap, nolock, order := mon.overlap, mon.nolock, strings.Join(mon.order, " ")
 	mon.mu.Unlock()
@@ -551,12 +656,17 @@ func runC12(c *core.Case) *core.Result {
 	if sig, msg := w.b.CheckLog(w.ledger, ""); sig != "" {
 		return c.Violation(sig, "%s", msg)
 	}
+	c.Count("abandoned_requests", atomic.LoadInt64(&abandoned))
+	c.Count("abandoned_requests_cancelled_at_lock", atomic.LoadInt64(&cancelledAtLock))
+	errsBefore := w.errPacks + w.rpcErrs
 	if ok, sig, msg := w.settle(8); sig != "" {
 		return verdict(c, "", sig, msg)
 	} else if ok {
 		if sig, msg := w.finalAgreement(); sig != "" {
 			return c.Violation(sig, "%s", msg)
 		}
+	} else {
+		return c.Violation("no-quiescence-after-concurrency", "after the concurrent phase every client synced eight more times, one request at a time and without any fault, and something is still left to push or pull (%d of these sequential requests were answered with an error): a key stays blocked or a client cannot make progress", w.errPacks+w.rpcErrs-errsBefore)
 	}
 	nDocs := 0
 	for _, dd := range w.b.Datatypes() {
